@@ -140,7 +140,7 @@ theorem loopItems_le {k k' : St → R} (x : Name) (hk : ∀ s, Le (k s) (k' s)) 
 def JLe (J J' : RJ) : Prop := ∀ rng ns st, Le (J rng ns st) (J' rng ns st)
 
 mutual
-theorem renderN_le (inl : Bool) (files : Files) {J J' : RJ} (hJ : JLe J J') :
+theorem renderN_le (inl : Mode) (files : Files) {J J' : RJ} (hJ : JLe J J') :
     ∀ (n : Node) (rng : Rng) (st : St), Le (renderN inl files J rng n st) (renderN inl files J' rng n st)
   | .text _, _, _ => .inr rfl
   | .var _, _, _ => .inr rfl
@@ -191,7 +191,7 @@ theorem renderN_le (inl : Bool) (files : Files) {J J' : RJ} (hJ : JLe J J') :
   | .inlined body, rng, st => by
     rw [renderN_inlined, renderN_inlined]; exact hJ _ _ _
 termination_by structural n => n
-theorem renderL_le (inl : Bool) (files : Files) {J J' : RJ} (hJ : JLe J J') :
+theorem renderL_le (inl : Mode) (files : Files) {J J' : RJ} (hJ : JLe J J') :
     ∀ (ns : List Node) (rng : Rng) (st : St), Le (renderL inl files J rng ns st) (renderL inl files J' rng ns st)
   | [], _, _ => .inr rfl
   | n :: ns, rng, st => by
@@ -201,13 +201,13 @@ theorem renderL_le (inl : Bool) (files : Files) {J J' : RJ} (hJ : JLe J J') :
 termination_by structural ns => ns
 end
 
-theorem render_le_succ (inl : Bool) (files : Files) : ∀ f : Nat, JLe (render inl files f) (render inl files (f + 1))
+theorem render_le_succ (inl : Mode) (files : Files) : ∀ f : Nat, JLe (render inl files f) (render inl files (f + 1))
   | 0 => fun _ _ _ => .inl rfl
   | f + 1 => fun rng ns st => by
     rw [render_succ, render_succ]
     exact renderL_le inl files (render_le_succ inl files f) ns rng st
 
-theorem render_le (inl : Bool) (files : Files) {f g : Nat} (h : f ≤ g) : JLe (render inl files f) (render inl files g) := by
+theorem render_le (inl : Mode) (files : Files) {f g : Nat} (h : f ≤ g) : JLe (render inl files f) (render inl files g) := by
   induction h with
   | refl => exact fun _ _ _ => Le.refl _
   | step _ ih =>
